@@ -372,7 +372,26 @@ def gen_family(rng, exact=True, search=False):
         other = ax["dmax"] if ax["dmax"] > ax["ddef"] else ax["dmin"]
         sources[0]["loc"] = [[ax["name"], (ax["ddef"] + other) / 2]]         # no source at the default location
         fam["malformed"] = "nodefault"
+    # source ORDER: the default source need not be the first <source> of the designspace (the usual Light, Regular,
+    # Bold listing).  `fonts` keeps its order (fonts[0] is the default font, sparse layers live in it); only the list of
+    # source descriptors is permuted.  Everything that depends on "the default source" must find it by location.
+    if len(sources) > 1 and rng.random() < (0.7 if search else 0.5):
+        if rng.random() < 0.5:
+            rng.shuffle(sources)
+        else:
+            sources.append(sources.pop(0))       # default listed last: every other master precedes it
+        fam["order"] = "default@%d" % default_index(fam) if default_index(fam) is not None else "nodefault"
     return fam
+
+
+def default_index(fam):
+    """index of the source designspaceLib.findDefault() picks: the first one whose full design location (axes left out
+    are at their default) is the default location; None if there is none"""
+    dflt = {a["name"]: a["ddef"] for a in fam["axes"]}
+    for i, s in enumerate(fam["sources"]):
+        if {**dflt, **{n: v for n, v in s["loc"]}} == dflt:
+            return i
+    return None
 
 
 def gen_instances(rng, fam, exact=True):
